@@ -133,15 +133,58 @@ def cargo_json(cmd, cwd, target, timeout=3000):
     return rc, diags, err, dt
 
 
+def tree_fingerprint():
+    """hash of everything a declaration's compile verdict depends on besides its own text"""
+    import hashlib
+    h = hashlib.sha256()
+    roots = [os.path.join(REPO, "nutype_macros"), os.path.join(REPO, "nutype"), os.path.join(VERIF, "rt", "src")]
+    for root in roots:
+        for dp, dn, fn in sorted(os.walk(root)):
+            dn[:] = sorted(d for d in dn if d not in ("target", ".git"))
+            for f in sorted(fn):
+                if f.endswith((".rs", ".toml")):
+                    p = os.path.join(dp, f)
+                    h.update(p.encode())
+                    with open(p, "rb") as fh:
+                        h.update(fh.read())
+    rc, out, err, dt = run(["rustc", "--version"])
+    h.update(out.encode())
+    return h.hexdigest()
+
+
 def build_workspace(ws: Workspace, modules, features=ALL_FEATURES, max_rounds=5, log=None):
     """Build; quarantine declarations that do not compile. Returns (ok, quarantined{did:[diags]}, info)."""
     quarantined = {}
     mods = list(modules)
     t0 = time.time()
+    # quarantine cache: a module's verdict depends only on its text, the nutype sources, nvrt and the toolchain
+    fp = tree_fingerprint() + ":" + ",".join(features)
+    cache_path = os.path.join(ws.dir, "quarantine_cache.json")
+    cache = {}
+    try:
+        with open(cache_path) as f:
+            cache = json.load(f)
+    except Exception:
+        cache = {}
+    if cache.get("fingerprint") == fp:
+        cached = cache.get("decls", {})
+        text_of = dict(mods)
+        for did, ent in cached.items():
+            if did in text_of and sha8(text_of[did]) == ent.get("text_sha"):
+                quarantined[did] = ent["diags"]
+        mods = [(did, mt) for (did, mt) in mods if did not in quarantined]
+
+    def save_cache():
+        text_of = dict(modules)
+        os.makedirs(ws.dir, exist_ok=True)
+        with open(cache_path, "w") as f:
+            json.dump({"fingerprint": fp, "decls": {did: {"text_sha": sha8(text_of[did]), "diags": dg} for did, dg in quarantined.items()}}, f)
+
     for rnd in range(max_rounds):
         ws.write(mods, features)
         rc, diags, err, dt = cargo_json(["cargo", "build", "--offline", "--message-format=json", "--keep-going", "-q"], ws.dir, ws.target)
         if rc == 0:
+            save_cache()
             return True, quarantined, {"rounds": rnd + 1, "build_s": time.time() - t0}
         by, un = ws.attribute(diags)
         if log:
